@@ -16,6 +16,118 @@ COQ_ACK = {"when_received": "AReceived", "when_executed": "AExecuted", "when_sav
 ERR_OF = {"raise": "ValueError", "base": "BodyBase", "cancelled": "TimeoutError", "noresult": "NoResultError"}
 
 
+# the OBJECT a failing execution raises (deps_driver.EXC_KINDS): kind -> (class name, outcome of the task function it
+# stands for, is it falsy).  Absent = ValueError / BodyBase / NoResultError / DepFail as ERR_OF has them.
+EXC_KINDS = {
+    "falsy_bool": ("FalsyBoolError", "raise", True),
+    "falsy_len": ("FalsyLenError", "raise", True),
+    "unhashable": ("UnhashableError", "raise", False),
+    "equal": ("EqualError", "raise", False),
+    "group": ("ExceptionGroup", "raise", False),
+    "falsy_group": ("FalsyGroup", "raise", True),
+    "falsy_depfail": ("FalsyDepFail", "raise", True),
+    "plain_base": ("BodyBase", "base", False),
+    "falsy_base": ("FalsyBase", "base", True),
+    "base_group": ("BaseExceptionGroup", "base", False),
+    "falsy_noresult": ("FalsyNoResult", "noresult", True),
+}
+EXC_DESCR = {
+    "falsy_bool": "falsy (__bool__ False)", "falsy_len": "falsy (__len__ 0)", "unhashable": "unhashable, value-based __eq__",
+    "equal": "equal to every instance of its class", "group": "ExceptionGroup", "falsy_group": "falsy ExceptionGroup subclass",
+    "falsy_depfail": "falsy (__len__ 0) subclass of the dependency's failure", "plain_base": "BaseException that is no Exception",
+    "falsy_base": "falsy BaseException that is no Exception", "base_group": "BaseExceptionGroup",
+    "falsy_noresult": "falsy NoResultError subclass",
+}
+# weights: the falsy ones first (the repaired defect), the rest thinner
+TASK_EXC_POOL = ("falsy_bool", "falsy_bool", "falsy_len", "falsy_len", "falsy_group", "falsy_base", "falsy_base",
+                 "falsy_noresult", "unhashable", "equal", "group", "base_group", "plain_base")
+DEP_EXC_POOL = ("falsy_bool", "falsy_len", "falsy_depfail", "falsy_depfail", "falsy_base", "falsy_group", "unhashable",
+                "equal", "group", "base_group", "plain_base")
+
+
+def case_rng(case, tag):
+    """a generator of its own for an input kind added later, seeded by the case it is applied to: every case that does
+    not get the new kind is exactly what it was before the kind existed"""
+    import zlib
+    return random.Random(zlib.crc32((tag + json.dumps(case, sort_keys=True)).encode("utf-8")))
+
+
+def add_excs(case, p=.11):
+    """the object a failing execution raises: about a ninth of the cases get exception objects of unusual kinds (falsy,
+    unhashable, equal by value, BaseExceptions that are no Exceptions, exception groups, a falsy no-result signal) raised
+    by the task function and by the scripted failing dependency; a case without a failing execution gets one (the
+    statement's `if and only if` is about failing executions with open dependencies).  A fifth of them raise one and
+    the same exception object in every execution that raises that kind."""
+    rr = case_rng(case, "exc")
+    if rr.random() >= p:
+        return case
+    msgs = case["msgs"]
+
+    def free(m):
+        # the task function decides how it ends: no timeout that cuts it short, no Context.requeue() (which raises itself)
+        return m.get("timeout") is None and not any(mu["op"] == "requeue" for mu in m.get("muts") or [])
+
+    failing = [m for m in msgs if m.get("fail") is not None or (m.get("outcome", "return") != "return" and free(m))]
+    if not failing:
+        cands = [m for m in msgs if free(m)] or msgs
+        m = rr.choice(cands)
+        m.pop("timeout", None)
+        if m.get("dur"):
+            m["dur"] = [min(x, 30000) for x in m["dur"]]
+        if any(mu["op"] == "requeue" for mu in m.get("muts") or []):
+            m["muts"] = [mu for mu in m["muts"] if mu["op"] != "requeue"]
+        m["outcome"] = "raise"
+        failing = [m]
+    shared = rr.random() < .2
+    hot_t, hot_d = rr.choice(TASK_EXC_POOL), rr.choice(DEP_EXC_POOL)
+    some = False
+    for k, m in enumerate(failing):
+        if some and rr.random() < .25:
+            continue                    # an ordinary exception next to the unusual ones
+        some = True
+        if m.get("fail") is not None:
+            m["fail"]["exc"] = hot_d if rr.random() < .6 else rr.choice(DEP_EXC_POOL)
+            if shared:
+                m["fail"]["exc_shared"] = True
+            if rr.random() < .7:
+                continue                # the body is never reached: its kind would not matter
+        if m.get("outcome", "return") != "return" and free(m):
+            kind = hot_t if rr.random() < .6 else rr.choice(TASK_EXC_POOL)
+            m["exc"] = kind
+            m["outcome"] = EXC_KINDS[kind][1]
+            if shared:
+                m["exc_shared"] = True
+    return case
+
+
+def exc_profile(case, ex):
+    """evidence keys: which unusual exception objects were raised, by whom, and whether open dependencies were there
+    to see them"""
+    keys = []
+    prop = bool(case.get("propagate", True))
+    for d in ex:
+        f = d.msg.get("fail") or {}
+        kind = f.get("exc") if d.fail else (d.msg.get("exc") if d.raised is not None else None)
+        if kind is None or d.raised is None or d.raised[0] != EXC_KINDS[kind][0]:
+            continue
+        by = "a failing dependency" if d.fail else "the task function"
+        keys.append("raised object: %s, by %s" % (EXC_DESCR[kind], by))
+        shared = bool(f.get("exc_shared")) if d.fail else bool(d.msg.get("exc_shared"))
+        if shared:
+            keys.append("raised object: the same object in several executions")
+        if d.closes:
+            saw = sum(1 for x in d.closes if x[2] is not None)
+            keys.append("raised object: %s, %d open dependencies, propagate=%s: %s" % (
+                "falsy" if EXC_KINDS[kind][2] else "truthy but unusual", min(len(d.closes), 3), prop,
+                "all saw it" if saw == len(d.closes) else "none saw it" if saw == 0 else "some saw it"))
+            for x in d.closes:
+                keys.append("raised object: %s -> %s teardown, propagate=%s" % (
+                    "falsy" if EXC_KINDS[kind][2] else "truthy but unusual", case["nodes"][d.inst_node[x[1]]]["style"], prop))
+    if not keys:
+        keys.append("raised object: ordinary exceptions only")
+    return keys
+
+
 # --------------------------------------------------------------------------- generator
 def depth_of(nodes, k, memo):
     if k not in memo:
@@ -763,6 +875,10 @@ def live_profile(case, obs, ex):
 
 
 def gen_case(r):
+    return add_excs(gen_case0(r))
+
+
+def gen_case0(r):
     x = r.random()
     if x < .12:
         return add_path(r, gen_override_case(r))
@@ -1167,6 +1283,7 @@ def finish(case, d, log):
     d.on_error = []
     d.body = None
     d.cb_done = "missing"
+    d.raised = None           # (class name, "task" / "dep") of the object the task function / the failing dependency raised
     ctxnum = {cid: k for k, cid in enumerate(d.ctxs)}
     d.ctxnum = ctxnum
     ack = COQ_ACK[case.get("ack", "when_saved")]
@@ -1198,6 +1315,8 @@ def finish(case, d, log):
             d.fail = True
             d.finish_at = g if d.finish_at is None else d.finish_at
             d.effs.append("FDepFail")
+        elif k == "raised":
+            d.raised = (e[2], e[3])
         elif k == "task_start":
             d.body = (g, e[3])
             if "pv" in e[3]:
@@ -1253,7 +1372,11 @@ def finish(case, d, log):
     d.timeline.sort(key=lambda x: x[0])
     d.error_found = d.fail or (d.outcome is not None and d.outcome != "return")
     d.resolution = "RFail" if d.fail else ("(RDone %s)" % COQ_OUT[d.outcome] if d.outcome else None)
+    # the execution's exception: the object its task function / its failing dependency raised (the driver's bodies log
+    # the class of what they raise); a timeout and Context.requeue() raise inside asyncio / taskiq
     d.expected_err = "DepFail" if d.fail else ERR_OF.get(d.outcome)
+    if d.raised is not None and (d.fail or d.outcome in ("raise", "base", "noresult")):
+        d.expected_err = d.raised[0]
 
 
 # --------------------------------------------------------------------------- Coq literals
@@ -1487,6 +1610,7 @@ def sharing_profile(case, ex):
     keys += sorted(seen)
     keys += value_profile(case, ex)
     keys += wire_profile(case, ex)
+    keys += exc_profile(case, ex)
     tids = {}
     for d in ex:
         tids.setdefault(d.sent["tid"], []).append(d)
@@ -1589,6 +1713,11 @@ def c06_actions(case, ex, log):
         for g, tid, s in d.saves:
             payload = s.get("ret") if not s.get("is_err") else s.get("err_payload")
             prod = carrier(case, payload.get("arg"), d.i) if isinstance(payload, dict) else None
+            if prod is None and d.msg.get("exc_shared") and d.raised is not None and d.raised[1] == "task" \
+                    and s.get("err") == d.raised[0]:
+                # one exception object raised by several executions carries no delivery's payload: the stored error is
+                # taken for the own task function's when it is of the class that one raised
+                prod = d.i
             # the model names a task id by the execution that carried it: several deliveries may carry one id
             t = d.i if tid == d.sent["tid"] else next((k for k in range(len(case["msgs"])) if sent_tid(case, k) == tid), None)
             by_g.setdefault(g, []).append(("ASave %d" % d.i, "VSaved %d %s" % (t if t is not None else 99, C.copt(prod, str))))
@@ -1624,6 +1753,9 @@ def _drop_node(case, k):
 def reductions(case):
     """all one-step simplifications of a case (each still a well-formed case)"""
     out = []
+    if "_comment" in case:
+        # the commentary of a corpus entry describes that entry, not what is left of it
+        case = {k: v for k, v in case.items() if k != "_comment"}
 
     def variant(fn):
         c = json.loads(json.dumps(case))
@@ -1673,12 +1805,31 @@ def reductions(case):
             variant(lambda c, k=k: c["nodes"][k].update(style="gen"))
         if st == "coro":
             variant(lambda c, k=k: c["nodes"][k].update(style="plain"))
+    def unexc(c, i):
+        # back to the ordinary exception of that outcome
+        c["msgs"][i].pop("exc", None)
+        c["msgs"][i].pop("exc_shared", None)
+
+    def unexc_fail(c, i):
+        c["msgs"][i]["fail"].pop("exc", None)
+        c["msgs"][i]["fail"].pop("exc_shared", None)
+
     for i, m in enumerate(case["msgs"]):
         for key in ("fail", "timeout", "save_fail", "save_pause"):
             if m.get(key) is not None:
                 variant(lambda c, i=i, key=key: c["msgs"][i].pop(key))
         if m.get("outcome", "return") != "return":
-            variant(lambda c, i=i: c["msgs"][i].update(outcome="return"))
+            variant(lambda c, i=i: (c["msgs"][i].update(outcome="return"), unexc(c, i)) and None)
+        if m.get("exc"):
+            variant(lambda c, i=i: unexc(c, i))
+            if m.get("exc_shared"):
+                variant(lambda c, i=i: c["msgs"][i].pop("exc_shared"))
+            if m["exc"] not in ("falsy_bool", "plain_base", "falsy_base", "falsy_noresult", "base_group"):
+                variant(lambda c, i=i: c["msgs"][i].update(exc="falsy_bool"))
+        if (m.get("fail") or {}).get("exc"):
+            variant(lambda c, i=i: unexc_fail(c, i))
+            if m["fail"].get("exc_shared"):
+                variant(lambda c, i=i: c["msgs"][i]["fail"].pop("exc_shared"))
         if m.get("start"):
             variant(lambda c, i=i: c["msgs"][i].update(start=0))
         if m.get("dur"):
@@ -1887,4 +2038,30 @@ def grid_cases():
                                         "tasks": [{"deps": [[2, True]], "ctx": True, "sync": False}], "msgs": msgs,
                                         "propagate": True, "ack": "when_saved", "middleware": mw, "via_inmemory": True,
                                         "overrides": [[2, 3]], "user_ctx": 7})
+    # the object a failing execution raises: every kind x every teardown style x propagate x raised by the task function /
+    # by a dependency that fails after the yielding one was opened; two overlapping deliveries, with and without one shared object
+    for kind, (_, oc, _) in EXC_KINDS.items():
+        for st in YIELDING:
+            for prop in (True, False):
+                for by in ("task", "dep"):
+                    if by == "dep" and kind not in DEP_EXC_POOL:
+                        continue
+                    for shared in (False, True):
+                        msgs = []
+                        for i in range(2):
+                            m = {"task": 0, "start": 3000 * i, "pauses": [10000, None, 4000], "dur": [2000],
+                                 "ackable": "sync" if i == 0 else "async", "kw": True, "outcome": "return"}
+                            if by == "task":
+                                m.update(outcome=oc, exc=kind)
+                                if shared:
+                                    m["exc_shared"] = True
+                            else:
+                                m["fail"] = {"node": 1, "when": "late", "exc": kind}
+                                if shared:
+                                    m["fail"]["exc_shared"] = True
+                            msgs.append(m)
+                        out.append({"nodes": [{"style": st, "ctx": True, "subs": [], "swallow": False},
+                                              {"style": "coro", "ctx": False, "subs": [[0, True]], "swallow": False}],
+                                    "tasks": [{"deps": [[1, True]], "ctx": True, "sync": False}], "msgs": msgs,
+                                    "propagate": prop, "ack": "when_saved", "middleware": True, "via_inmemory": False})
     return out
